@@ -70,6 +70,10 @@ var props = map[string]propCfg{
 }
 
 func init() {
+	props["C09"] = propCfg{Engine: "pipesim", Level: "exploration", QuickRandom: 30000, QuickWall: 25, ThoroughRand: 3000000, ThoroughWall: 480,
+		Rule: "one case = one simulated run of a fork stage (Map, FMap, Filter, Partition, ForEach, Void) with par workers. Enumerated: stage x par {1,2,3} x length 0..4 x 6 base schedules x {pure, Try with failing positions}, cancel swept over every step for par<=2, n<=3 (thorough: par<=4, length<=6); then seeded random plans: par in {1,2,3,4,8}, length <= 3*par (thorough <= 60), stalls and extra scheduling points inside the user function (completion orders), statement-level preemption, cancel, abandonment, never-closing input. " + distinctRule}
+	props["C10"] = propCfg{Engine: "pipesim", Level: "exploration", QuickRandom: 30000, QuickWall: 25, ThoroughRand: 3000000, ThoroughWall: 420,
+		Rule: "one case = one simulated run of fork.Fold and, on the same input in the same run, pipe.Fold. Enumerated: 8 commutative monoids (sum/0, plain product/1, modular product/1, max/MinInt, min/MaxInt, and/all-ones, or/0, gcd/0) x par {1,2,3,4} x length 0..4 (thorough 0..7) x 6 base schedules; then seeded random plans: par in {1,2,3,4,8}, length <= 20 (also shorter than par and empty), stalls and scheduling points inside Combine (distributions of elements over workers), preemption. Inputs are distinct powers of 8 for sum and distinct primes for the plain product, so that the result encodes how often each element was combined. " + distinctRule}
 	props["C08"] = propCfg{Engine: "pipesim", Level: "exploration", QuickRandom: 30000, QuickWall: 25, ThoroughRand: 3000000, ThoroughWall: 480,
 		Rule: "one case = one simulated run of pipe.New with 1-3 sender tasks and 1-2 receiver tasks. Enumerated: capacity {0,1,2,5} x 0..4 values (thorough 0..6) x 6 base schedules x 6 shapes (cancel at quiescence, sender close, receiver never receives, cancel swept over every step with an eager and with a late receiver, bursts that drain the queue to empty and refill it); then seeded random plans (capacity up to 16, several senders/receivers, paces, cancel by step/virtual time, sender close, abandonment, pool eviction). Oracles: online FIFO/no-duplicate/nothing-invented, porcupine linearizability of the Send/Recv history against a sequential FIFO queue (histories <= 24 operations, 0.5 s budget each; a timed-out check is counted as inconclusive in probes, never reported), completeness after cancel and after sender close, senders never blocked. " + distinctRule}
 	props["C07"] = propCfg{Engine: "pipesim", Level: "fault_enumeration", QuickRandom: 30000, QuickWall: 25, ThoroughRand: 3000000, ThoroughWall: 420,
